@@ -176,6 +176,41 @@ add("C13", "E3 sock-mc", "model_checking",
     "For double-subscribe histories only agreement is demanded. scc hashing is owned through the vendored-scc seam.",
     "stateless deviation-bounded DFS over the real socket with yield points at the non-atomic registration / fan-out steps")
 
+add("C14", "E3 sock-mc (cancellation points) + E2", "model_checking",
+    "For 7 real socket types: the peer's two messages are cut at EVERY byte offset into two chunks and the application runs EVERY "
+    "well-formed action string (length <= 6, thorough 7) over {poll the recv future once, next chunk arrives, drop the pending "
+    "future} — every cancellation point relative to every arrival position, repeated — then receives to completion: results must be "
+    "exactly the peer's messages, in order, once. REQ: abandoned recv calls must leave the socket owing that recv (a new send fails "
+    "with ReturnToSender, recv returns the reply to the outstanding request) with the reply arriving before / during / after the "
+    "abandoned call. The fair queue's part is additionally covered by E2's always-enabled spurious Poll.",
+    "DESIGN.md 5.14",
+    "The cancellation point of a future is between two polls; each poll is atomic.",
+    "exhaustive enumeration of cancellation points x arrival positions on the real sockets")
+
+add("C15", "E3 sock-mc", "model_checking",
+    "The real proxy(ROUTER, DEALER, capture) with capture in {none, PUSH + raw PULL peer}, 1-2 raw REQ-like clients x 2 requests "
+    "(payloads with empty frames) and 1-2 raw echo workers under every schedule within the deviation bound from 3 default policies, "
+    "including BOTH select! branch orders at every loop iteration (choice point through the vendored futures-util seam) and both "
+    "sides becoming ready in the same poll. Oracle from the reference-decoded wires: each request exactly once on a worker's wire as "
+    "[client-id, \"\", payload...], per client in order; each client gets exactly the echoes of its own requests; the capture wire "
+    "holds a copy of each forwarded message; proxy() does not return.",
+    "DESIGN.md 5.15",
+    "select! randomness is owned through a 12-line seam in a vendored futures-util (harness workspace only).",
+    "stateless deviation-bounded DFS over the real proxy incl. select! branch order")
+
+add("C16", "E3 sock-mc (fault enumeration at every byte offset)", "model_checking",
+    "For each of the 9 real socket types: a victim peer's stream (greeting + READY + 2 messages) cut at EVERY byte offset by {close, "
+    "reset, silence with failing writes} next to a live peer, every schedule within the deviation bound. Oracle: handshake-stage cut "
+    "=> attach fails and both connection halves are dropped; later cut => the live peer's messages are all delivered, at most one "
+    "error is reported and recv then parks or delivers (step horizon = spin), no send after the end was observed reaches the victim, "
+    "and at final quiescence both halves of the victim's connection (peer-table entry, buffers, transport handle) have been "
+    "dropped. Genuine defects found were repaired (6 fix commits); the remaining one (clean end-of-stream leaks the write half) is a "
+    "listed known finding.",
+    "DESIGN.md 5.16",
+    "'Released' = the harness pipe halves handed to the library were dropped. Descriptor counting over real TCP/IPC is not part of "
+    "this check.",
+    "exhaustive fault-point enumeration with deviation-bounded schedule exploration on the real sockets")
+
 PENDING = ["C01","C02","C03","C04","C05","C06","C07","C08","C09","C10","C11","C12","C13","C14","C15","C16","C17","C18","C20"]
 
 def main():
